@@ -508,6 +508,32 @@ class Grammar:
         walk(self.rules[name].alts)
         return out
 
+    def element_frequencies(self, name: str) -> dict[str, int]:
+        """How often each rule/token reference can occur in one match of the rule (2 = more than once): decides, as in the generated
+        parser, whether the context accessor returns a list (`ctx.stmt()`) or a single child (`ctx.if_header()`)."""
+        def of_alts(alts: list[Seq]) -> dict[str, int]:
+            out: dict[str, int] = {}
+            for s in alts:
+                for k, v in of_seq(s).items():
+                    out[k] = max(out.get(k, 0), v)
+            return out
+
+        def of_seq(s: Seq) -> dict[str, int]:
+            out: dict[str, int] = {}
+            for e in s.elems:
+                if e.kind in ("ref", "tok"):
+                    sub = {e.value: 1}
+                elif e.kind == "group":
+                    sub = of_alts(e.value)
+                else:
+                    continue
+                many = e.suffix[:1] in ("*", "+")
+                for k, v in sub.items():
+                    out[k] = min(2, out.get(k, 0) + (2 if many else v))
+            return out
+
+        return of_alts(self.rules[name].alts)
+
     def reachable(self, start: str) -> set[str]:
         seen = {start}
         todo = [start]
